@@ -57,16 +57,18 @@ Theorem C07_a_copied_array_is_independent :
 Proof. exact @array_copy_is_independent. Qed.
 Print Assumptions C07_a_copied_array_is_independent.
 
-(* a call binds its arguments in a fresh environment and returns the caller's environment untouched *)
+(* a call of a function binds its arguments in a fresh frame (the caller's environment is parked where
+   no name lookup reaches) and returns the caller's environment and class context untouched *)
 Theorem C07_calls_bind_parameters_in_a_fresh_environment :
-  forall F (O : fops F) fns n s f args v s',
-    eval O fns (S n) s (ECall f args) = Ok (v, s') ->
-    exists fd vs s1 sc c s2,
-      fns f = Some fd /\
-      eval_list (eval O fns n) s args = Ok (vs, s1) /\
+  forall F (O : fops F) fns cls depth n s f fd args v s',
+    fns f = Some fd ->
+    eval O fns cls depth (S n) s (ECall f args) = Ok (v, s') ->
+    exists vs s1 sc c s2,
+      evals (eval O fns cls depth n) s args = Ok (vs, s1) /\
       bind_params (fn_params fd) vs = Some sc /\
-      exec_list (exec O fns n) (mkSt [sc] (s_out s1)) (fn_body fd) = Ok (c, s2) /\
-      s_env s' = s_env s1 /\ s_out s' = s_out s2.
+      execs cls depth (exec O fns cls depth n) (enter (with_temps s1 (vs ++ s_temps s1)) sc EmptyString) (fn_body fd) = Ok (c, s2) /\
+      s_env (enter (with_temps s1 (vs ++ s_temps s1)) sc EmptyString) = [sc] /\
+      s_env s' = s_env s1 /\ s_ctx s' = s_ctx s1.
 Proof. exact @call_isolated. Qed.
 Print Assumptions C07_calls_bind_parameters_in_a_fresh_environment.
 
@@ -80,7 +82,7 @@ Definition fact : fdecl :=
   mkFn "fact" [(TInt, "d")] TLong
     [SIf (EBin OLe (EVar "d") (ELit (LInt 0))) (SBlock [SReturn (Some (ELit (LInt 1)))]) None;
      SReturn (Some (EBin OMul (ECast TLong (EVar "d")) (ECall "fact" [EBin OSub (EVar "d") (ELit (LInt 1))])))].
-Definition demo : program :=
+Definition demo_fns : list fdecl :=
   [mkFn "main" [] TVoid
      [SDeclArr TInt "a" None (Some (EArr [ELit (LInt 1); ELit (LInt 2); ELit (LInt 3)]));
       SDeclArr TInt "b" None (Some (EVar "a"));
@@ -92,9 +94,10 @@ Definition demo : program :=
       SEcho (EIndex (EVar "a") (ELit (LInt 3)))];
    fact].
 Example ex_run_ok :
-  run zops 40 (map (fun d => mkFn (fn_name d) (fn_params d) (fn_ret d) (firstn 7 (fn_body d))) demo)
+  run zops 40 (mkProg [] (map (fun d => mkFn (fn_name d) (fn_params d) (fn_ret d) (firstn 7 (fn_body d))) demo_fns))
   = (["{1, 2, 3}"; "{9, 2, 3}"; "5!=120"; "1"; "1"], Finished).
 Proof. vm_compute. reflexivity. Qed.
+Definition demo : program := mkProg [] demo_fns.
 Example ex_run_err : run zops 40 demo = ([], Failed (RIndex 3 3)).
 Proof. vm_compute. reflexivity. Qed.
 Example ex_checker_accepts : check_program demo = true.
